@@ -32,22 +32,6 @@ def expand(chain, mults, only=None):
     return out
 
 
-def nested_branch_mults(chain, inside=None):
-    """ids of multiplied branches that contain another multiplied branch"""
-    outer = set()
-
-    def visit(ch, stack):
-        for el in ch:
-            for b in el['br']:
-                if b.get('mult'):
-                    outer.update(stack)
-                    visit(b['chain'], stack + [b['mult']])
-                else:
-                    visit(b['chain'], stack)
-    visit(chain, [])
-    return outer
-
-
 def denotation_graph(nodes, edges):
     g = nx.Graph()
     for i, a in enumerate(nodes):
@@ -66,13 +50,13 @@ def attrs_eq(a, b):
 
 class C05(core.Prop):
     ID = 'C05'
-    FUNCTIONS = ['read_cgsmiles', '_find_next_character', '_expand_branch',
+    FUNCTIONS = ['read_cgsmiles', '_find_next_character',
                  '_parse_dialect_string', 'check_and_cast_types']
     STUBS = ['re.finditer on a symbolic string -> backtracking matcher (symx)']
     ASSUMPTIONS = ['the multiplier count is a solver-chosen integer within the stated range; it is concretised '
                    'by forking (one path per value) because the longhand needs it',
                    'denotation of |n as fixed in DESIGN.md section 3.1',
-                   'a multiplied branch is the only branch of its anchor; ring bonds join only non-multiplied nodes']
+                   'a multiplied branch is the only branch of its anchor; ring bonds join two non-multiplied nodes or two nodes of one multiplied unit (then one ring bond per copy)']
     OUTSIDE = ['a bond symbol directly after |n on a *node* (reader raises ValueError; undocumented)',
                'counts beyond the stated range; more than two multipliers in one string']
     BOUNDS = {
@@ -143,6 +127,16 @@ class C05(core.Prop):
                     t['rings'] = [[i, j, 'd', 's']]
                     t['cmax'] = 3
                     out.append(t)
+        # ring bond inside the multiplied unit (anchor + branch): one ring per copy
+        for base in gg.tree_shapes(4, max_nest=2) + (gg.tree_shapes(5, max_nest=2) if tier == 'thorough' else []):
+            for s in candidates(base):
+                for unit in self._branch_units(s):
+                    cands = [(i, j) for (i, j) in gg.ring_candidates(base['parent']) if i in unit and j in unit]
+                    for (i, j) in cands[:2]:
+                        t = copy.deepcopy(s)
+                        t['rings'] = [[i, j, 'd', 's']]
+                        t['cmax'] = 3
+                        out.append(t)
         for base in gg.tree_shapes(2, max_nest=1):
             for s in candidates(base):
                 for el in gg.elems(s['chain']):
@@ -188,6 +182,33 @@ class C05(core.Prop):
         return uniq
 
     @staticmethod
+    def _branch_units(shape):
+        """node ids of every multiplied unit (anchor + its branch incl. nested branches) without multipliers inside"""
+        units = []
+
+        def sub(ch, acc):
+            ok = True
+            for el in ch:
+                acc.add(el['v'])
+                if el.get('mult'):
+                    ok = False
+                for b in el['br']:
+                    if b.get('mult') or not sub(b['chain'], acc):
+                        ok = False
+            return ok
+
+        def visit(ch):
+            for el in ch:
+                for b in el['br']:
+                    if b.get('mult'):
+                        acc = {el['v']}
+                        if sub(b['chain'], acc) and not el.get('mult'):
+                            units.append(acc)
+                    visit(b['chain'])
+        visit(shape['chain'])
+        return units
+
+    @staticmethod
     def _after_branch(chain, target):
         """the element written directly after target's (single) branch: the chain continuation of target"""
         res = []
@@ -200,19 +221,6 @@ class C05(core.Prop):
                     visit(b['chain'])
         visit(chain)
         return res[0] if res else None
-
-    @staticmethod
-    def _multi_branch_in_mult(chain):
-        found = []
-
-        def visit(ch, inside):
-            for el in ch:
-                if inside and len(el['br']) >= 2:
-                    found.append(el['v'])
-                for b in el['br']:
-                    visit(b['chain'], inside or bool(b.get('mult')))
-        visit(chain, False)
-        return found
 
     @staticmethod
     def _followers(chain, target):
@@ -302,28 +310,6 @@ class C05(core.Prop):
         long, conds2 = gg.render(long_shape, rec)
         return symx.cat('{', short, '}'), symx.cat('{', long, '}'), conds + conds2
 
-    def classify(self, shape, cinp, cobs, clauses):
-        mults = {k: int(v) for k, v in cinp['mults'].items()}
-        outer = nested_branch_mults(shape['chain'])
-        if outer:
-            # known finding: a multiplied branch nested inside a multiplied branch.  Signature: the shape has
-            # that feature and writing only the *outer* multiplied branch(es) out by hand (inner ones kept as
-            # shorthand, same holes and counts) passes every clause.
-            part = {'chain': expand(shape['chain'], mults, only=outer), 'rings': shape['rings'], 'cmax': shape.get('cmax')}
-            rest = {k: v for k, v in mults.items() if k not in outer}
-            short, long, _ = self._texts(part, cinp['holes'], rest)
-            from .. import loader
-            bad, _ = core.replay_record(self, loader.load_orig(self.MODULES), part,
-                                        dict(cinp, short=short, long=long, mults=rest))
-            return None if bad else 'C05-nested-branch-multiplier'
-        multi = self._multi_branch_in_mult(shape['chain'])
-        if multi and all(c.startswith('short_') for c in clauses):
-            # known finding: inside a multiplied branch an element carries two or more nested branches
-            # (recipes are keyed by the anchor node, the second nested branch overwrites the first).
-            # Signature: that feature, the longhand is read correctly and only shorthand clauses fail.
-            return 'C05-two-nested-branches-in-multiplied-branch'
-        return None
-
     def execute(self, M, shape, inp):
         return [core.guard(M.read_cgsmiles.read_cgsmiles, inp['short']),
                 core.guard(M.read_cgsmiles.read_cgsmiles, inp['long'])]
@@ -353,11 +339,16 @@ class C05(core.Prop):
 
     MUTANTS = {
         'branch_mult_off_by_one': {'read_cgsmiles': (
-            "for idx in range(0,int(pattern[eon_a+2:eon_b])-1):",
-            "for idx in range(0,int(pattern[eon_a+2:eon_b])-2):")},
+            "for idx in range(1, int(pattern[eon_a+2:eon_b])):",
+            "for idx in range(2, int(pattern[eon_a+2:eon_b])):")},
         'anchor_order_dropped': {'read_cgsmiles': (
-            "recipes[prev_node][0] = (recipe[0], recipe[1], anchor_order)",
-            "recipes[prev_node][0] = (recipe[0], recipe[1], 1)")},
+            "mol_graph.add_edge(base_anchor, copy_of[prev_node], order=anchor_order)",
+            "mol_graph.add_edge(base_anchor, copy_of[prev_node], order=1)")},
+        'copies_bonded_to_first_anchor': {'read_cgsmiles': (
+            "                    base_anchor = copy_of[prev_node]\n", "")},
+        'ring_bond_in_unit_not_copied': {'read_cgsmiles': (
+            "block_edges = list(mol_graph.subgraph(block).edges(data=True))",
+            "block_edges = list(nx.minimum_spanning_tree(mol_graph.subgraph(block)).edges(data=True))")},
         'node_copies_inherit_order': {'read_cgsmiles': (
             "            prev_bond_order = bond_order\n\n            # here we have a double edge",
             "            # here we have a double edge")},
